@@ -230,15 +230,21 @@ func routes(root, f string) (rs []mut) {
 	return rs
 }
 
-func genLocs(root string, thorough bool) (out []locT) {
+// genLocs streams the locations to emit (nothing is kept: every engine rebuild
+// of the code under test forces a GC cycle, so the live heap is kept small).
+func genLocs(root string, thorough bool, emit func(locT) bool) {
 	cwd := filepath.Join(root, cwdRel)
-	seen := map[string]bool{}
+	seen := map[uint64]struct{}{}
+	stop := false
 	add := func(loc, class, target string, devs int) {
-		if seen[loc] {
+		h := lib.Hash(loc)
+		if _, ok := seen[h]; ok || stop {
 			return
 		}
-		seen[loc] = true
-		out = append(out, locT{Loc: loc, Class: class, Target: target, Devs: devs})
+		seen[h] = struct{}{}
+		if !emit(locT{Loc: loc, Class: class, Target: target, Devs: devs}) {
+			stop = true
+		}
 	}
 	// stand-alone spellings
 	for _, s := range []string{"", " ", "/", ".", "..", "file://", "file:///", root, cwd, "a.txt\x00", cwd + "/a.txt\x00", cwd + "/a.txt\x00/../../unsafe/a.txt",
@@ -291,13 +297,15 @@ func genLocs(root string, thorough bool) (out []locT) {
 								cl = "plain"
 							}
 							add(q, cl, t, devs)
+							if stop {
+								return
+							}
 						}
 					}
 				}
 			}
 		}
 	}
-	return out
 }
 
 // ---------------------------------------------------------------------------
@@ -336,7 +344,11 @@ func (o *obsT) String() string {
 	sort.Ints(ks)
 	var sb strings.Builder
 	for _, k := range ks {
-		fmt.Fprintf(&sb, "canary-%d(%s) shows up in %s; ", k, canaryFiles[k-1], strings.Join(o.Canaries[k], ","))
+		name := "unknown file"
+		if k >= 1 && k <= len(canaryFiles) {
+			name = canaryFiles[k-1]
+		}
+		fmt.Fprintf(&sb, "canary-%d(%s) shows up in %s; ", k, name, strings.Join(o.Canaries[k], ","))
 	}
 	if o.Unknown != "" {
 		sb.WriteString(o.Unknown + "; ")
@@ -552,17 +564,22 @@ func (e *env) exec(cs *caseC) (o *obsT) {
 	if des, rerr := os.ReadDir(fdir); rerr == nil {
 		for _, de := range des {
 			data, _ := os.ReadFile(filepath.Join(fdir, de.Name()))
-			if len(data) > 200 {
-				data = data[:200]
-			}
-			o.Stored[de.Name()] = string(data)
 			for _, m := range canaryRe.FindAllStringSubmatch(string(data), -1) {
 				n, _ := strconv.Atoi(m[1])
 				o.note(n, "stored-file:"+de.Name())
 			}
+			if len(data) > 200 {
+				data = data[:200]
+			}
+			o.Stored[de.Name()] = string(data)
 		}
 	}
-	// Observation 4: verdicts after the engines are rebuilt from the registry.
+	// Observation 4: verdicts after the engines are rebuilt from the registry
+	// (skipped after a panic, which may have left a lock held and is a
+	// violation by itself).
+	if o.Panic != "" {
+		return o
+	}
 	func() {
 		defer func() {
 			if r := recover(); r != nil && o.Panic == "" {
@@ -665,14 +682,14 @@ func (e *env) judge(cs *caseC, o *obsT) (key, desc string) {
 	return "", ""
 }
 
-func (e *env) check(cs caseC) {
+func (e *env) check(cs *caseC) {
 	c := e.c
 	c.Count("evals", 1)
-	o := e.exec(&cs)
-	key, desc := e.judge(&cs, o)
+	o := e.exec(cs)
+	key, desc := e.judge(cs, o)
 	if key != "" {
 		// confirm on a fresh instance
-		o2 := e.exec(&cs)
+		o2 := e.exec(cs)
 		if o2.evidenceKey() != o.evidenceKey() {
 			c.EngineError(fmt.Sprintf("nondeterministic observation for %s: %s vs %s", jsonStr(cs), o, o2))
 			return
@@ -721,16 +738,17 @@ func run(c *lib.Ctx) {
 		c.EngineError(err.Error())
 		return
 	}
-	locs := genLocs(e.root, !c.Quick())
+	nLocs := 0
+	genLocs(e.root, !c.Quick(), func(locT) bool { nLocs++; return true })
 	if c.ShardI == 0 {
-		c.Note("locations", strconv.Itoa(len(locs)))
+		c.Note("locations", strconv.Itoa(nLocs))
+		c.Note("cases_in_tier", strconv.Itoa(nLocs*len(patLists)*len(entries)*2))
 		c.Note("bounds", fmt.Sprintf("departures from the plain absolute spelling per location <= %d (classes: segment insertion, percent-encoding, suffix, prefix/scheme; dot-dot routes are extra); segment insertions at %s",
 			map[bool]int{true: 1, false: 2}[c.Quick()], map[bool]string{true: "the first and the last separator", false: "every separator inside the tree and the first"}[c.Quick()]))
 	}
 	idx, mine := 0, 0
 	cwd := rootVar + "/" + cwdRel
-outer:
-	for _, l := range locs {
+	genLocs(e.root, !c.Quick(), func(l locT) bool {
 		for _, pl := range patLists {
 			for _, en := range entries {
 				for _, white := range []bool{false, true} {
@@ -739,17 +757,18 @@ outer:
 						continue
 					}
 					if mine++; mine%64 == 0 && c.Expired() {
-						break outer
+						return false
 					}
 					cs := caseC{PatName: pl.Name, Pats: pl.Pats, Loc: e.unsub(l.Loc), Entry: en, White: white, Class: l.Class, Target: l.Target, Cwd: cwd}
-					e.check(cs)
+					e.check(&cs)
 					if idx%9973 == 0 {
 						c.Sample(cs)
 					}
 				}
 			}
 		}
-	}
+		return true
+	})
 	// The tree must be untouched.
 	for i, f := range canaryFiles {
 		data, rerr := os.ReadFile(filepath.Join(e.root, f))
